@@ -293,6 +293,9 @@ RAN_RE = re.compile(
 TOTAL_RE = re.compile(
     r'^Total: (\d+) tests, (\d+) failures, (\d+) errors(?: and|,) (\d+) '
     r'skipped in (?:\d+ minutes )?[\d.]+ seconds\.$', re.M)
+GLUED_RAN_RE = re.compile(
+    r'^(.*\S)(  Ran \d+ tests with \d+ failures, \d+ errors(?: and|,) \d+ '
+    r'skipped in (?:\d+ minutes )?[\d.]+ seconds\.)$')
 ANSI_RE = re.compile(r'\x1b\[[0-9;]*m')
 HEADER_RE = re.compile(r'^Running (\S+) tests:$', re.M)
 
@@ -306,6 +309,16 @@ def parse_output(text):
     text = ANSI_RE.sub('', text)
     lines = [ln.rsplit('\r', 1)[-1] if '\r' in ln.rstrip('\r') else ln
              for ln in text.split('\n')]
+    # progress output that was not ended by a line break (a class level skip
+    # at -vv has no stopTest) leaves the summary on the same line
+    split = []
+    for ln in lines:
+        m = GLUED_RAN_RE.match(ln)
+        if m:
+            split += [m.group(1), m.group(2)]
+        else:
+            split.append(ln)
+    lines = split
     cur = None
     i = 0
     while i < len(lines):
